@@ -8,15 +8,15 @@
 (* client steps are the properties (selected by Judge).                                         *)
 EXTENDS H2Client, TraceIO
 
-VARIABLES cur, l
-tvars == <<vars, cur, l>>
+VARIABLES cur, l, dn     \* dn: a deviation was recorded by the step just taken
+tvars == <<vars, cur, l, dn>>
 
 Line == Trace[l]
 
 TInit ==
     \E t \in 1..NT :
        LET h == Trace[Meta.starts[t]] IN
-       /\ cur = t /\ l = Meta.starts[t] + 1
+       /\ cur = t /\ l = Meta.starts[t] + 1 /\ dn = FALSE
        /\ h.e = "hdr"
        /\ InitWith(h.strict)
 
@@ -43,14 +43,22 @@ TRst      == Line.e = "e_rst"    /\ Rst(Line.c, Line.s, Line.code)
 TRet      == Line.e = "ret"      /\ Ret(Line.r, Line.kind)
 TCClosed  == Line.e = "e_closed" /\ CClosed(Line.c)
 TQ        == Line.e = "q" /\ Quiesce({[c |-> f.c, live |-> ToSet(f.live), pr |-> f.pr, rv |-> f.rv, pd |-> f.pd] : f \in ToSet(Line.cs)})
-TEnd      == Line.e = "end" /\ (J18 => AllTerminated) /\ Same
+(* C18 at the end: every RoundTrip has returned (unless the strict-mode stall, a C17 finding, blocks the queue) *)
+TEnd      == Line.e = "end" /\ (J18 => (AllTerminated \/ "StrictQueueStall" \in dev)) /\ Same
 
 TNext ==
     /\ l <= Meta.ends[cur]
     /\ l' = l + 1 /\ cur' = cur
     /\ (TStart \/ TStartOn \/ TReserve \/ TCancel \/ TCloseB \/ TNoop \/ TSettings \/ TResp \/ TSData \/ TSRst
         \/ TPingAck \/ TGoAway \/ TSClose \/ TDial \/ THdr \/ TData \/ TRst \/ TRet \/ TCClosed \/ TQ \/ TEnd)
+    /\ dn' = (dev' # dev)
 
 TSpec == TInit /\ [][TNext]_tvars
 Mark == HighWater(cur, l)
+(* A deviation is a violation; each set of deviation names is reported once per run (register   *)
+(* NT+1 remembers what was reported) because every report prints a whole error trace.             *)
+ASSUME TLCSet(NT + 1, {})
+NoNewDeviation ==
+    ~dn \/ (LET seen == TLCGet(NT + 1) IN
+            IF dev \subseteq seen THEN TRUE ELSE TLCSet(NT + 1, seen \cup dev) /\ FALSE)
 =============================================================================
